@@ -618,6 +618,26 @@ func (t *Table) Delete(input *types.DeleteItemInput) (map[string]*types.Item, er
 	// delete is an idempotent operation,
 	// running it multiple times on the same item or attribute does not result in an error response,
 	// therefore we do not need to check if the item exists.
+	// support conditional writes
+	if input.ConditionExpression != nil {
+		aliases := map[string]string{}
+		for name, alias := range input.ExpressionAttributeNames {
+			aliases[name] = types.StringValue(alias)
+		}
+
+		_, matched := t.matchKey(QueryInput{
+			Index:                     PrimaryIndexName,
+			ExpressionAttributeValues: input.ExpressionAttributeValues,
+			Aliases:                   aliases,
+			Limit:                     1,
+			ConditionExpression:       input.ConditionExpression,
+		}, t.getItem(key))
+
+		if !matched {
+			return nil, types.NewError("ConditionalCheckFailedException", ErrConditionalRequestFailed.Error(), nil)
+		}
+	}
+
 	item, ok := t.Data[key]
 	if !ok {
 		return item, nil
